@@ -73,7 +73,8 @@ Section Oct.
 
   Inductive o_op :=
   | ORead
-  | OOrigin (p : V3) | ORotation (a : Q) | OSu (s : Q) | OSv (s : Q) | OSw (s : Q) | OCells (c : list ocell).
+  | OOrigin (p : V3) | ORotation (a : Q) | OSu (s : Q) | OSv (s : Q) | OSw (s : Q) | OCells (c : list ocell)
+  | OOriginX (refused : bool) (x : Q).       (* o.origin["x"] = x, see BmOriginX in Model/GridIndex.v *)
 
   Definition o_mk org r eu ev ew su sv sw cells cache : octree :=
     {| o_origin := org; o_rotation := r; o_eu := eu; o_ev := ev; o_ew := ew; o_su := su; o_sv := sv; o_sw := sw;
@@ -97,6 +98,8 @@ Section Oct.
     | OSv s => (o_mk org r eu ev ew su s sw cells None, None)
     | OSw s => (o_mk org r eu ev ew su sv s cells None, None)
     | OCells c => (o_mk org r eu ev ew su sv sw (Some c) None, None)
+    | OOriginX true _ => (o, None)
+    | OOriginX false x => (o_mk (Some (set_x x (origin_or_zero org))) r eu ev ew su sv sw cells (o_cache o), None)
     end.
 
   Fixpoint o_run (o : octree) (ops : list o_op) : octree * list (list V3) :=
